@@ -247,6 +247,14 @@ func (evm *EVM) Call(ctx context.Context, caller ethvm.ContractRef, addr common.
 	blockNum := evm.Context.BlockNumber.Uint64()
 	currentCall := tracer.CallTree().Current()
 
+	// calldata as passed to the join points: the request's data field is required, so an empty
+	// calldata must be an empty slice rather than nil (a nil field fails to marshal and the join
+	// point - and with it the call - would fail)
+	jpInput := input
+	if jpInput == nil {
+		jpInput = []byte{}
+	}
+
 	var aspectLogger types.AspectLogger
 	if evm.Config.Tracer != nil {
 		// make sure the tracer type is correct
@@ -325,7 +333,7 @@ func (evm *EVM) Call(ctx context.Context, caller ethvm.ContractRef, addr common.
 						From:  caller.Address().Bytes(),
 						To:    addr.Bytes(),
 						Index: &currentCall.Index,
-						Data:  input,
+						Data:  jpInput,
 						Value: value.Bytes(),
 						Gas:   &gas,
 					},
@@ -362,7 +370,7 @@ func (evm *EVM) Call(ctx context.Context, caller ethvm.ContractRef, addr common.
 						From:  caller.Address().Bytes(),
 						To:    addr.Bytes(),
 						Index: &currentCall.Index,
-						Data:  input,
+						Data:  jpInput,
 						Value: value.Bytes(),
 						Gas:   &gas,
 						Ret:   ret,
